@@ -56,6 +56,9 @@ def timing_cases():
         ("always-hot-fast-sync", "policy=always interval=200 jitter=1/10 tfrag=6/10 tdead=1000000000 syncms=20", hot + [("waitmerge", 2500)], "merged"),
         ("always-hot-slow-sync", "policy=always interval=100 jitter=1/10 tfrag=6/10 tdead=1000000000 syncms=350", hot + [("waitmerge", 2500)], "merged"),
         ("always-tombstones", "policy=always interval=100 jitter=0/1 tfrag=6/10 tdead=1000000000", absent + [("waitmerge", 2500)], "merged"),
+        # the first pass fails (the name of its output file is taken): the trigger stays exceeded, the next check must merge (seed C18-F shape)
+        ("always-retry-after-failed-pass", "policy=always interval=120 jitter=3/10 tfrag=6/10 tdead=1000000000",
+         [("touch", "1.bitcask.data")] + hot + [("waitmerge", 4000)], "merged"),
     ]:
         c = S.Case(name, dict(base), ops)
         c.extra, c.want = extra, want
@@ -186,7 +189,7 @@ def main(tier, seed):
         "evaluations": len(tcases) + len(timing) + 4, "fsyncs_after_rotation": nsync4, "fsyncs_beside_merge_check": nsync3, "trigger_true": ntrue,
         "distinct_nontrivial": len(set((c.pol, c.tf, c.tdead, c.impl[-2] if len(c.impl) >= 2 else "") for c in tcases)),
         "rule": "trigger: states with 1-12 live and 0-12 dead entries (+ tombstones of absent and present keys), 9 fragmentation "
-                "triggers incl. 0.6 and 3/5, 3 dead-bytes triggers, policies always / never / window (open all day, closed now): verif_can_merge() vs the binary64 model; timing: eight "
+                "triggers incl. 0.6 and 3/5, 3 dead-bytes triggers, policies always / never / window (open all day, closed now): verif_can_merge() vs the binary64 model; timing: nine "
                 "scenarios with 100-150 ms check intervals (merge appears within 2.5 s / does not within 0.7 s), two of them with interval sync enabled beside the merge check; interval sync (alone, and beside a faster merge check): "
                 "fsync calls on the active file counted by the recorder over 600 ms with a 50 ms interval (%d seen, %d with sync off)" % (nsync, nsync0),
         "samples": [{"config": tcases[0].extra, "ops": [S.show_op(o) for o in tcases[0].ops[:8] if o[0] in ("set", "del")]}],
